@@ -134,6 +134,7 @@ def _child(mod, prop, scenario, tape_values, wfd):
         done.append(reason)
         S.active = False
         dump = S.thread_dump() if reason != "main-done" else []
+        h.thread_dump = dump
         try:
             h.ev("end-of-run", reason=reason)
             violations, shape, nontrivial = mod.check(h, reason)
